@@ -1,10 +1,13 @@
 import WindVerif.Proofs.Storage
+import WindVerif.Proofs.StorageSession
 /-!
 # C14 — TextFileStorage: what is stored under an id is what any process reads back
 
 Property theorems only (proofs in `Proofs/Storage*.lean`) about the interleaving model `Model/Storage.lean`: any number of
-processes with their own copy of the storage object, arbitrary scripts of store / read / len / is_contiguous / iterate
-operations (`NoFlush`: `flush()` is a separate theorem, it requires everybody else to be done), pre-sized index or not, and
+processes with their own copy of the storage object, arbitrary scripts of store / read / len / is_contiguous / iterate /
+close operations (`close` = `close()` or leaving the `with storage:` block; the process goes on, its next store re-opens its
+file in append mode, read handles are re-opened on demand) (`NoFlush`: `flush()` is a separate theorem, it requires
+everybody else to be done), pre-sized index or not, and
 **every interleaving** of their visible operations (`Reach presize scripts s`).  `resultOf scripts s i k` is the k-th
 operation of process `i` together with its result once it has one.
 -/
@@ -80,5 +83,76 @@ example : ((run (start (init 0 [[.store 1 5], [.read 1, .read 1]]))
     ([1, 1, 1] ++ List.replicate 19 0 ++ List.replicate 8 1)).map (fun s => s.procs.map (·.results))) =
     some [[.ok], [.indexError, .text [some 5, none]]] := by decide
 example : NoFlush [[.store 1 5], [.read 1, .read 1]] := by unfold NoFlush; decide
+
+/-! ## sessions: `close()` / `__exit__` and re-opening in append mode -/
+
+/-- `close()` is local: a `close` step changes nothing but the closing process's handles and results — index, paths,
+counters, lock, files and every other process are unchanged; the closing process keeps its identifier (so its next store
+re-opens the same file), has no handle left and has recorded `ok` -/
+theorem close_local (s s' : St) (i : Nat) (p : Proc) (hp : s.procs[i]? = some p) (hpc : p.pc = .xClose)
+    (hs : step s i = some s') :
+    s'.index = s.index ∧ s'.paths = s.paths ∧ s'.cnt = s.cnt ∧ s'.wf = s.wf ∧ s'.lock = s.lock ∧ s'.files = s.files ∧
+    (∀ j, j ≠ i → s'.procs[j]? = s.procs[j]?) ∧
+    ∃ p', s'.procs[i]? = some p' ∧ p'.results = p.results ++ [.ok] ∧ p'.ident = p.ident ∧ p'.wOpen = false ∧
+      p'.rOpen = [] := by
+  first | exact WindVerif.Storage.close_local .. | (apply WindVerif.Storage.close_local <;> assumption)
+
+/-- the session goes on: when the operation after a `close` is a store and the process already has a file, that store starts
+with the append branch of `open()` (`open(self._file_paths[self._process_identifier], "a")`) -/
+theorem close_then_store_reopens (s s' : St) (i : Nat) (p : Proc) (hp : s.procs[i]? = some p) (hpc : p.pc = .xClose)
+    (hs : step s i = some s') (g t : Nat) (rest : List Op) (hsc : p.script = .store g t :: rest)
+    (hid : p.ident.isSome = true) :
+    ∃ p', s'.procs[i]? = some p' ∧ p'.pc = .oPathsGet ∧ p'.gid = g ∧ p'.text = t ∧ p'.script = rest := by
+  first | exact WindVerif.Storage.close_then_store_reopens .. | (apply WindVerif.Storage.close_then_store_reopens <;> assumption)
+
+/-- a store — the first one of a session and every later one, in particular the one that re-opened the file in append mode
+after a `close` — writes at the end of the process's own file: at the moment the entry is published (`index.setitem`) the
+file is what was there when `tell()` was evaluated (`c`, whose length is the offset `tell()` reported) followed by exactly
+the line of the text; the new entry is (own file, length of `c`) and denotes that line.  (That no earlier line of the file
+changes afterwards is `files_append_only` / `published_stable`.) -/
+theorem reopen_appends (presize : Nat) (scripts : List (List Op)) (hnf : NoFlush scripts) (s s' : St)
+    (hr : Reach presize scripts s) (i : Nat) (p : Proc) (hp : s.procs[i]? = some p) (hpc : p.pc = .sIdxSet)
+    (hs : step s i = some s') :
+    ∃ w c, p.ident = some w ∧ fileOf s w = some (c ++ [some p.text, none]) ∧ c.length = p.off ∧
+      s'.index[p.gid]? = some (some (w, c.length)) ∧ fileOf s' w = fileOf s w ∧
+      entryLine s' p.gid = some [some p.text, none] := by
+  first | exact WindVerif.Storage.reopen_appends .. | (apply WindVerif.Storage.reopen_appends <;> assumption)
+
+/-- files are append-only under every interleaving, sessions included (a handle re-opened with "a" does not truncate):
+whatever is in a file stays where it is -/
+theorem files_append_only (presize : Nat) (scripts : List (List Op)) (hnf : NoFlush scripts) (s : St)
+    (hr : Reach presize scripts s) (sched : List Nat) (s' : St) (hs : run s sched = some s') (w : Nat)
+    (c : List (Option Nat)) (h : fileOf s w = some c) : ∃ d, fileOf s' w = some (c ++ d) := by
+  first | exact WindVerif.Storage.files_append_only .. | (apply WindVerif.Storage.files_append_only <;> assumption)
+
+/-- non-vacuity: process 0 stores id 0, closes (leaves its `with` block), stores id 1 — which re-opens its file in append
+mode —, and process 1 reads both texts (the first one between the store and the close, the second one afterwards through the
+read handle it already has) -/
+example : ((run (start (init 0 [[.store 0 5, .close, .store 1 6], [.read 0, .read 1]]))
+    (List.replicate 23 0 ++ List.replicate 8 1 ++ [0] ++ List.replicate 20 0 ++ List.replicate 6 1)).map
+      (fun s => s.procs.map (·.results))) =
+    some [[.ok, .ok, .ok], [.text [some 5, none], .text [some 6, none]]] := by decide
+/-- … both lines are in the one file of process 0, the second entry at the offset where the first line ended -/
+example : ((run (start (init 0 [[.store 0 5, .close, .store 1 6], [.read 0, .read 1]]))
+    (List.replicate 23 0 ++ List.replicate 8 1 ++ [0] ++ List.replicate 20 0 ++ List.replicate 6 1)).map
+      (fun s => (s.index, s.files))) =
+    some ([some (0, 0), some (0, 2)], [(0, [some 5, none, some 6, none])]) := by decide
+example : NoFlush [[.store 0 5, .close, .store 1 6], [.read 0, .read 1]] := by unfold NoFlush; decide
+/-- the hypotheses of `close_local` / `close_then_store_reopens`: after its first store (23 steps) process 0 is about to
+close, with a store as the rest of its script and an identifier; the step is enabled and leads to the append branch with
+no handle open -/
+example : ((run (start (init 0 [[.store 0 5, .close, .store 1 6], [.read 0, .read 1]])) (List.replicate 23 0)).bind
+      (fun s => s.procs[0]?)).map (fun p => (p.pc, p.script, p.ident, p.wOpen)) =
+    some (.xClose, [.store 1 6], some 0, true) := by decide
+example : ((run (start (init 0 [[.store 0 5, .close, .store 1 6], [.read 0, .read 1]])) (List.replicate 24 0)).bind
+      (fun s => s.procs[0]?)).map (fun p => (p.pc, p.script, p.ident, p.wOpen)) =
+    some (.oPathsGet, [], some 0, false) := by decide
+/-- the hypotheses of `reopen_appends`: 35 steps of process 0 bring its second store to `index.setitem`, with the offset
+`tell()` reported on the re-opened handle = 2 = the length of the file before the second line -/
+example : ((run (start (init 0 [[.store 0 5, .close, .store 1 6], [.read 0, .read 1]])) (List.replicate 35 0)).bind
+      (fun s => s.procs[0]?)).map (fun p => (p.pc, p.gid, p.off)) = some (.sIdxSet, 1, 2) := by decide
+example : ((run (start (init 0 [[.store 0 5, .close, .store 1 6], [.read 0, .read 1]])) (List.replicate 36 0)).map
+      (fun s => (s.index, s.files))) =
+    some ([some (0, 0), some (0, 2)], [(0, [some 5, none, some 6, none])]) := by decide
 
 end WindVerif.C14
